@@ -90,4 +90,12 @@ def bind_sym_mutf8():
         wrapper.decode = dec            # the alias `decode = decode_modified_utf8` of the unchanged tree
     wrapper.decode_modified_utf8 = dec  # a wrapper function defined in the module looks the name up at call time
     dec._vf = True
+    # whatever else the wrapper module does around the decoder must be able to run on symbolic bytes too
+    from .symre import wrap_compiled, SymRe
+    wrap_compiled(wrapper)
+    if hasattr(wrapper, 're'):
+        wrapper.re = SymRe
+    wrapper.bytes = E.sx_bytes
+    wrapper.bytearray = E.sx_bytearray
+    wrapper.isinstance = E.sx_isinstance
     return wrapper
